@@ -508,13 +508,33 @@ theorem inv_mood {mt : String → Act → Bool} {c c' : Cfg} {ch : Char} {starts
 
 /-! ## the storyline -/
 
-theorem isShort_not_space {x : Char} (h : Shk.Story.isShort x = true) : Shk.Story.isSpace x = false := by
-  cases hs : Shk.Story.isSpace x with
-  | false => rfl
-  | true =>
-    exfalso
-    simp only [Shk.Story.isSpace, Bool.or_eq_true, beq_iff_eq] at hs
-    rcases hs with ((((rfl | rfl) | rfl) | rfl) | rfl) | rfl <;> revert h <;> decide
+theorem isShort_not_space {x : Char} (h : Shk.Story.isShort x = true) : Shk.Story.isPlain x = true := by
+  have hlt : x.toNat < 128 := by
+    simp only [Shk.Story.isShort, Bool.or_eq_true, Bool.and_eq_true, decide_eq_true_eq] at h
+    have e1 : ('z' : Char).toNat = 122 := by decide
+    have e2 : ('Z' : Char).toNat = 90 := by decide
+    have e3 : ('9' : Char).toNat = 57 := by decide
+    rcases h with (⟨_, h⟩ | ⟨_, h⟩) | ⟨_, h⟩
+    · have : x.val.toNat ≤ ('z' : Char).val.toNat := UInt32.le_iff_toNat_le.mp h
+      have e : x.toNat = x.val.toNat := rfl
+      have e' : ('z' : Char).val.toNat = 122 := by decide
+      omega
+    · have : x.val.toNat ≤ ('Z' : Char).val.toNat := UInt32.le_iff_toNat_le.mp h
+      have e : x.toNat = x.val.toNat := rfl
+      have e' : ('Z' : Char).val.toNat = 90 := by decide
+      omega
+    · have : x.val.toNat ≤ ('9' : Char).val.toNat := UInt32.le_iff_toNat_le.mp h
+      have e : x.toNat = x.val.toNat := rfl
+      have e' : ('9' : Char).val.toNat = 57 := by decide
+      omega
+  have hsp : Shk.Story.isSpace x = false := by
+    cases hs : Shk.Story.isSpace x with
+    | false => rfl
+    | true =>
+      exfalso
+      simp only [Shk.Story.isSpace, Bool.or_eq_true, beq_iff_eq] at hs
+      rcases hs with ((((rfl | rfl) | rfl) | rfl) | rfl) | rfl <;> revert h <;> decide
+  simp [Shk.Story.isPlain, hsp, hlt]
 
 theorem piece_ne_nil {s1 s2 : List Char} (h : s1 ≠ []) : Shk.Story.piece s1 s2 ≠ [] := by
   unfold Shk.Story.piece
@@ -551,7 +571,7 @@ theorem combineStory_props {P : List Char → Prop} (hcomb : ∀ a b, P a → P 
 /-- the acts a `storyline` / `edit` clause yields -/
 theorem validate_storyOk {mt : String → Act → Bool} {c : Cfg} (hinv : Inv mt c) {text : List Char}
     {acts : List Act} (h : Shk.Story.validate (sceneDefined c) text = .ok acts) :
-    Shk.Story.ValidStory (tblOf c) acts ∧ ∀ a ∈ acts, a ≠ [] ∧ ∀ x ∈ a, Shk.Story.isSpace x = false := by
+    Shk.Story.ValidStory (tblOf c) acts ∧ ∀ a ∈ acts, a ≠ [] ∧ ∀ x ∈ a, Shk.Story.isPlain x = true := by
   rw [← defd_tblOf] at h
   have hv := Shk.Story.validate_valid h
   refine ⟨hv, fun a ha => ?_⟩
@@ -572,7 +592,7 @@ theorem validate_storyOk {mt : String → Act → Bool} {c : Cfg} (hinv : Inv mt
       exact (hinv.head.scenes s hs).1
 
 theorem inv_story {mt : String → Act → Bool} {c : Cfg} (hinv : Inv mt c) (st : List Act)
-    (hst : Shk.Story.ValidStory (tblOf c) st ∧ ∀ a ∈ st, a ≠ [] ∧ ∀ x ∈ a, Shk.Story.isSpace x = false) :
+    (hst : Shk.Story.ValidStory (tblOf c) st ∧ ∀ a ∈ st, a ≠ [] ∧ ∀ x ∈ a, Shk.Story.isPlain x = true) :
     Inv mt (updateRepeat mt { c with story := st }) := by
   have hhead : HeadInv mt { c with story := st, repAct := (updateRepeat mt { c with story := st }).repAct } := by
     refine ⟨hinv.head.roleNames, hinv.head.roles, hinv.head.actorNames, hinv.head.actorRole,
@@ -598,7 +618,7 @@ theorem inv_storyline {mt : String → Act → Bool} {c c' : Cfg} {text : List C
     injection h with h; subst h
     obtain ⟨h1, h2⟩ := validate_storyOk hinv hv
     refine inv_story hinv _ ⟨Shk.Story.combineStory_valid _ _ hinv.head.story.1 h1, ?_⟩
-    refine combineStory_props (P := fun a => a ≠ [] ∧ ∀ x ∈ a, Shk.Story.isSpace x = false) ?_ _ _
+    refine combineStory_props (P := fun a => a ≠ [] ∧ ∀ x ∈ a, Shk.Story.isPlain x = true) ?_ _ _
       hinv.head.story.2 h2
     intro a b ha hb
     refine ⟨?_, fun x hx => ?_⟩
